@@ -186,7 +186,7 @@ theorem c02_complete {σ : Type} (H : Bytes → Bytes) (cfg : Config) (P : Provi
 theorem c02_unescapeUri_pct (h1 h2 a b : UInt8) (rest : Bytes)
     (ha : hexVal h1 = some a) (hb : hexVal h2 = some b) :
     unescapeUri (0x25 :: h1 :: h2 :: rest) = (unescapeUri rest).map (latin1Byte (a * 16 + b) ++ ·) := by
-  rw [unescapeUri.eq_def]; simp [ha, hb]
+  rw [unescapeUri.eq_def]; simp [radix16Pair_of_hexVal ha hb]
 
 theorem c02_unescapeUri_other (c : UInt8) (rest : Bytes) (h : c ≠ 0x25) :
     unescapeUri (c :: rest) = (unescapeUri rest).map (latin1Byte c ++ ·) := by
